@@ -597,6 +597,57 @@ fn run_profile(ctx: &Ctx) -> Stats {
         stats.into_inner()
     });
     stats.merge(lstats);
+    // (4) control lines over real TCP: the socket's own worker threads are part of the emulator. Line sets from
+    // C18's generator (with early stops, so that lines keep arriving after the run loop has ended, over-long lines
+    // and lines that are not UTF-8) go through Cpu::connect_socket; the verdict here is only: no thread of the
+    // emulator panicked (what the lines must *do* is C18's business).
+    let nt: u32 = tier.pick(120, 4000);
+    let tstats = par_shards(ctx, 8, |shard| {
+        use crate::engine::emu::{EMU_THREAD_PANICS, LAST_EMU_THREAD_PANIC};
+        let mut st = Stats::new();
+        let mut runner = proptest_runner(mix(ctx.seed, 0x1504_0000 + shard as u64), 1);
+        let ent = entropy_n(500);
+        for _ in 0..nt / 8 {
+            let raw = sample(&mut runner, &ent);
+            let mut e = Ent::new(&raw);
+            let mut lines: Vec<String> = super::c18::build_lines(&mut e).into_iter().filter(|l| !l.contains('\n')).collect();
+            if e.chance(1, 2) {
+                let k = e.below(lines.len() as u32 + 1) as usize;
+                lines.insert(k, "cmd:stop".into());
+            }
+            if e.chance(1, 3) {
+                let k = e.below(lines.len() as u32 + 1) as usize;
+                lines.insert(k, format!("{}{}", "y".repeat(e.pick(&[4096usize, 8192, 65536, 70000])), e.pick(&["\u{e0ff}", "", "cmd:stop"])));
+            }
+            let before = EMU_THREAD_PANICS.load(std::sync::atomic::Ordering::SeqCst);
+            let r = super::c18::judge_tcp_lines(&lines, e.u32());
+            if let Err(m) = &r {
+                if m.starts_with(super::c18::INFRA) {
+                    st.notes.push(format!("TCP run inconclusive: {}", m));
+                    continue;
+                }
+            }
+            // the workers end when the connection closes; give a late panic a moment to happen
+            std::thread::sleep(std::time::Duration::from_millis(5));
+            st.evaluations += 1;
+            st.class(&format!("{}: control lines over TCP (socket worker threads)", prof));
+            let after = EMU_THREAD_PANICS.load(std::sync::atomic::Ordering::SeqCst);
+            if after != before {
+                let p = LAST_EMU_THREAD_PANIC.lock().map(|g| g.clone()).unwrap_or_default();
+                let sig = panic_key(&p);
+                let f = Failure { signature: sig.clone(), detail: format!("{} profile: a thread started by the emulator panicked while these lines were delivered over TCP: {}", prof, p), case: json!({"kind": "fault-tcp-lines", "lines": lines}) };
+                if ctx.findings.is_open(P, &sig) {
+                    st.known_hit(&sig, || f.case.clone());
+                } else {
+                    st.failures.retain(|x| x.signature != sig);
+                    st.fail(f);
+                    break;
+                }
+            }
+        }
+        st
+    });
+    stats.merge(tstats);
     drop(quiet);
     stats
 }
@@ -613,6 +664,19 @@ fn replay_case(ctx: &Ctx, case: &Value) -> Option<String> {
         Some("fault-program") => {
             let code = unhex(case.get("code")?.as_str()?)?;
             run_code(&code, case.get("exit")?.as_u64()? as u32, &[])
+        }
+        Some("fault-tcp-lines") => {
+            let lines: Vec<String> = case.get("lines")?.as_array()?.iter().filter_map(|x| x.as_str().map(|s| s.to_string())).collect();
+            use crate::engine::emu::{EMU_THREAD_PANICS, LAST_EMU_THREAD_PANIC};
+            for k in 0..5u32 {
+                let before = EMU_THREAD_PANICS.load(std::sync::atomic::Ordering::SeqCst);
+                let _ = super::c18::judge_tcp_lines(&lines, 777 + k);
+                std::thread::sleep(std::time::Duration::from_millis(20));
+                if EMU_THREAD_PANICS.load(std::sync::atomic::Ordering::SeqCst) != before {
+                    return Some(format!("a thread started by the emulator panicked: {}", LAST_EMU_THREAD_PANIC.lock().map(|g| g.clone()).unwrap_or_default()));
+                }
+            }
+            None
         }
         Some("fault-lines") => {
             let lines: Vec<String> = case.get("lines")?.as_array()?.iter().filter_map(|x| x.as_str().map(|s| s.to_string())).collect();
